@@ -48,6 +48,9 @@ CLAIMED = {
  "C16": ("exploration", "keeper", "schedule exploration with the owned-schedule executor; exact reference model on sequential histories, possibility sets on interleaved ones; inode/content watcher for status.tag",
          "Readiness reports, resets, deadline, channel-state updates and queries (direct and GET /provision with ancient/current/far-future ticks) either sequentially (exact oracle: flags + finished tick model) or under generated schedules (possibility sets from which operations had definitely/possibly happened); a watcher thread checks that one inode of status.tag never shows two contents and every content is a complete message.",
          "Interleavings expressible by the executor only; the provision files live in the configured key directory of the worker's private tmpfs.", "4 C16"),
+ "C17": ("exploration", "setuprig", "property-based stateful testing of the real setup binary in an overlay-on-root chroot against an in-memory file-map model; upper-directory diff as containment oracle; stand-in systemctl log with file hashes as ordering oracle",
+         "Generated initial states and command sequences (incl. the backup -> install other content -> restore round trip) run with the real proxy_agent_setup binary built from /repo; after every command the four system files, the backup folder and the package equal the model byte for byte and mode for mode, every changed path of the overlay's upper layer is an allowed one, and the service-manager calls are the expected sequence with 'stop' before the first and 'start' after the last file change.",
+         "Only the tool's own contract (not the extension's orchestration); systemctl is a stand-in; partial installs get containment/no-crash checks only; the CLI cannot express restore without backup deletion.", "4 C17"),
  "C18": ("exploration", "telemetry", "property-based testing of the real EventReader on a paused-clock runtime against a raw mock; bodies parsed with an independent XML parser (xml-rs); marker multiset as at-most-once oracle",
          "Generated event files (hostile markup, CDATA terminators, non-BMP text, sizes around the 64 KiB batch limit and single events around it) and upload failure patterns; every POST body must be < 64 KiB, parse as TelemetryData/Provider/Event*, carry each event's text as data exactly, never repeat a marker across accepted or differing batches; oversize events appear nowhere, all others are posted (and accepted unless five attempts failed); the run terminates and the consumed files are gone.",
          "Virtual time for the retry sleeps; the size band 1200..2600 bytes of fixed per-event parameters is not asserted either way.", "4 C18"),
@@ -94,6 +97,7 @@ m = {
  "engines": [
    {"name": "e2e", "path": "harness/src/bin/e2e.rs", "serves_properties": ["C01", "C03", "C04", "C05", "C07", "C11", "C13", "C14", "C15"], "kind_free_text": "real ProxyServer in a private network+mount namespace, mock metadata hosts on the real addresses, raw HTTP client with stand-in attribution records; proptest-generated cases"},
    {"name": "ebpfsim", "path": "harness/src/bin/ebpfsim.rs", "serves_properties": ["C06"], "kind_free_text": "unmodified linux-ebpf/ebpf_cgroup.c compiled with clang against shim headers + C model of helpers/maps (harness/build.rs, harness/csrc), driven from Rust"},
+   {"name": "setuprig", "path": "harness/src/bin/setuprig.rs", "serves_properties": ["C17"], "kind_free_text": "real proxy_agent_setup binary chroot'ed into overlayfs(lower=/) in a private mount namespace + file-map model"},
    {"name": "telemetry", "path": "harness/src/bin/telemetry.rs", "serves_properties": ["C18"], "kind_free_text": "real EventReader on tokio's paused clock + raw mock host + xml-rs"},
    {"name": "keeper", "path": "harness/src/bin/keeper.rs", "serves_properties": ["C09", "C10", "C12", "C13", "C16"], "kind_free_text": "real KeyKeeper / shared-state actors against a reference secure-channel host in a private namespace; owned-schedule executor for schedule properties"},
    {"name": "pure", "path": "harness/src/bin/pure.rs", "serves_properties": ["C02", "C03", "C04", "C19", "C20"], "kind_free_text": "in-process proptest runners over the agent's public functions with independent reference models"},
